@@ -133,6 +133,16 @@ func main() {
 	for _, v := range []*big.Int{big.NewInt(0), big.NewInt(5), ref.P, new(big.Int).Add(ref.P, one), new(big.Int).Sub(ref.P, one), new(big.Int).Sub(ref.R256, one), ref.N} {
 		keyStrs = append(keyStrs, ref.B32(v))
 	}
+	// limb-structured x values: p - 2^k, 2^256-1-2^k, 2^k, 2^k - 1 for every k (canonical-range checks are
+	// multi-limb borrow chains; a slip in one limb only shows on values shaped like these)
+	for k := uint(0); k < 256; k++ {
+		p2 := new(big.Int).Lsh(one, k)
+		for _, v := range []*big.Int{new(big.Int).Sub(ref.P, p2), new(big.Int).Sub(new(big.Int).Sub(ref.R256, one), p2), p2, new(big.Int).Sub(p2, one), new(big.Int).Add(ref.P, p2)} {
+			if v.Sign() >= 0 && v.BitLen() <= 256 {
+				keyStrs = append(keyStrs, ref.B32(v))
+			}
+		}
+	}
 	for L := 0; L <= 34; L++ {
 		g := append(ref.B32(ref.Gx), 0, 0)
 		keyStrs = append(keyStrs, g[:L], bytes.Repeat([]byte{0}, L))
